@@ -3,8 +3,10 @@ package main
 import (
 	"fmt"
 	"go/ast"
+	"go/constant"
 	"go/token"
 	"go/types"
+	"regexp"
 	"sort"
 	"strings"
 
@@ -132,6 +134,14 @@ func (jt *jsTaint) analyse(f *ssa.Function, source func(ssa.Value) bool) []jsFlo
 				}
 			case name == "io.WriteString" || strings.HasPrefix(name, "fmt.Fprint"):
 				if len(args) > 1 && tainted(args[1:]) {
+					// a constant format all of whose verbs are numeric (%d %x %X %o %b) writes digits only,
+					// whatever the numbers were computed from: it cannot carry free text
+					if name == "fmt.Fprintf" && len(args) > 2 && !t[args[1]] {
+						if k, ok := args[1].(*ssa.Const); ok && k.Value != nil && k.Value.Kind() == constant.String && numericOnlyFormat(constant.StringVal(k.Value)) {
+							flows = append(flows, jsFlow{false, in.Pos(), "written as numbers by a constant numeric format"})
+							continue
+						}
+					}
 					flows = append(flows, jsFlow{true, in.Pos(), "written with " + name})
 				}
 			case com.IsInvoke() && com.Method.Name() == "Write" && strings.HasSuffix(com.Value.Type().String(), "JSWriter"):
@@ -283,6 +293,9 @@ func ruleR14b(c *Ctx) {
 					}
 					if in.Low == nil && in.High == nil {
 						continue // x[:] keeps the whole text
+					}
+					if (in.Low == nil || runeBoundary(in.Low, in.X, map[ssa.Value]bool{})) && (in.High == nil || runeBoundary(in.High, in.X, map[ssa.Value]bool{})) {
+						continue // cut where a character starts: the positions come from decoding the text itself
 					}
 					nslice++
 					c.bad("R14b", fmt.Sprintf("%s slices free text#%d", fk, nslice), in.Pos(), "free text of the template is cut at a byte offset before it is escaped and written: a multi-byte character can be split, so the generated file is not valid UTF-8 and the text is not preserved")
@@ -492,4 +505,56 @@ func ruleR14e(c *Ctx) {
 		return true
 	})
 	c.floor("R14e", "Write calls in Generator.WriteFile", 1, n)
+}
+
+var reFormatVerb = regexp.MustCompile(`%[-+# 0]*[0-9]*(?:\.[0-9]+)?([a-zA-Z%])`)
+
+// numericOnlyFormat: every verb of the format writes digits (%d %x %X %o %b) or a literal percent sign.
+func numericOnlyFormat(f string) bool {
+	for _, m := range reFormatVerb.FindAllStringSubmatch(f, -1) {
+		switch m[1] {
+		case "d", "x", "X", "o", "b", "%":
+		default:
+			return false
+		}
+	}
+	return true
+}
+
+// runeBoundary: v is a position in text at which a character starts, by provenance: 0, or a position of this
+// kind advanced by the size that utf8.DecodeRune / DecodeRuneInString reported for the text from there on.
+func runeBoundary(v ssa.Value, text ssa.Value, seen map[ssa.Value]bool) bool {
+	if seen[v] {
+		return true // a loop-carried position: decided by its other edges
+	}
+	seen[v] = true
+	switch x := v.(type) {
+	case *ssa.Const:
+		return x.Value != nil && x.Value.Kind() == constant.Int && constant.Sign(x.Value) == 0
+	case *ssa.Phi:
+		for _, e := range x.Edges {
+			if !runeBoundary(e, text, seen) {
+				return false
+			}
+		}
+		return true
+	case *ssa.BinOp:
+		if x.Op != token.ADD {
+			return false
+		}
+		isSize := func(s ssa.Value) bool {
+			ex, ok := s.(*ssa.Extract)
+			if !ok || ex.Index != 1 {
+				return false
+			}
+			call, ok := ex.Tuple.(*ssa.Call)
+			if !ok {
+				return false
+			}
+			n := calleeName(call.Common())
+			return n == "unicode/utf8.DecodeRune" || n == "unicode/utf8.DecodeRuneInString"
+		}
+		return (runeBoundary(x.X, text, seen) && isSize(x.Y)) || (runeBoundary(x.Y, text, seen) && isSize(x.X))
+	}
+	return false
 }
